@@ -222,7 +222,7 @@ class RecorderMachine(RuleBasedStateMachine):
 
     @rule(go=rarely(6), n=st.sampled_from([1023, 1024, 1025, 2047, 2048, 2049, 2100]))
     def read_many(self, go, n):
-        if go and self.it.cfg["N"] >= 2000:
+        if go and 2000 <= self.it.cfg["N"] < 100000:
             self.it.apply(["read_n", n])
 
     @rule()
@@ -245,6 +245,7 @@ def explicit_cases():
     return [
         {"cfg": cfg, "ops": ["data", "read", "read", "rewind", "data", "read", "read", "read", "rewind", "rewind", "data", "read"]},
         {"cfg": dict(cfg, how="Recorder"), "ops": ["rewind", "read", "read", "data"]},
+        {"cfg": dict(cfg, N=2250000, sw=4, ch=2, sr=44100, B=100000, H=None, mr=None), "ops": [["read_n", 23], "rewind", "data", ["read_n", 24]]},
         {"cfg": dict(cfg, N=2300, B=1, H=None, mr=None), "ops": [["read_n", 2100], "rewind", "data", ["read_n", 2101], "rewind", "data"]},
         {"cfg": dict(cfg, N=2300, B=1, H=None, mr=[2200, 0], kind="raw_lazy", how="Recorder"), "ops": [["read_n", 2048], "rewind", "data", "read"]},
         {"cfg": dict(cfg, kind="buffer", prepos=5), "ops": ["read", "read", "rewind", "data", "read", "read", "read"]},
